@@ -512,6 +512,33 @@ func (d *driver) assign(o model.Op, panicked bool, ret any) model.Val {
 	return none
 }
 
+// logStep writes one trace line; the heap is logged as a delta against the previous line
+func (d *driver) logStep(o model.Op, panicked bool, rv model.Val, prev model.Heap) {
+	type ch [2]any
+	var changed []ch
+	for i, c := range d.cur {
+		same := i < len(prev) && prev[i].T == c.T && len(prev[i].E) == len(c.E)
+		if same {
+			for j := range c.E {
+				if prev[i].E[j] != c.E[j] {
+					same = false
+					break
+				}
+			}
+		}
+		if !same {
+			changed = append(changed, ch{i + 1, c})
+		}
+	}
+	if changed == nil {
+		changed = []ch{}
+	}
+	b, _ := json.Marshal(map[string]any{"t": "op", "o": o, "p": panicked, "ret": rv, "n": len(d.cur), "ch": changed})
+	d.w.Write(b)
+	d.w.WriteByte('\n')
+	d.steps++
+}
+
 func (d *driver) step() bool {
 	o, ok := d.pickOp()
 	if !ok {
@@ -522,12 +549,9 @@ func (d *driver) step() bool {
 	}
 	panicked, ret, _ := d.real.Exec(o)
 	rv := d.assign(o, panicked, ret)
+	prev := d.cur
 	d.cur = d.project()
-	rec := map[string]any{"t": "op", "o": o, "p": panicked, "ret": rv, "h": d.cur}
-	b, _ := json.Marshal(rec)
-	d.w.Write(b)
-	d.w.WriteByte('\n')
-	d.steps++
+	d.logStep(o, panicked, rv, prev)
 	return true
 }
 
@@ -558,18 +582,16 @@ func cmdDrive(args []string) int {
 		if big {
 			d.maxList = 700
 		}
-		fmt.Fprintln(w, `{"t":"reset"}`)
+		fmt.Fprintf(w, "{\"t\":\"reset\",\"nkeys\":%d,\"derived\":%d,\"cseed\":%d}\n", *nkeys, *derived, *seed+int64(p))
 		logged := func(o model.Op) {
 			if !d.real.Executable(o) {
 				return
 			}
 			panicked, ret, _ := d.real.Exec(o)
 			rv := d.assign(o, panicked, ret)
+			prev := d.cur
 			d.cur = d.project()
-			b, _ := json.Marshal(map[string]any{"t": "op", "o": o, "p": panicked, "ret": rv, "h": d.cur})
-			w.Write(b)
-			w.WriteByte('\n')
-			d.steps++
+			d.logStep(o, panicked, rv, prev)
 		}
 		for s := 0; s < nsteps; s++ {
 			d.step()
@@ -618,13 +640,7 @@ func cmdDrive(args []string) int {
 								o.Ks = append(o.Ks, x)
 							}
 						}
-						panicked, ret, _ := d.real.Exec(o)
-						rv := d.assign(o, panicked, ret)
-						d.cur = d.project()
-						b, _ := json.Marshal(map[string]any{"t": "op", "o": o, "p": panicked, "ret": rv, "h": d.cur})
-						w.Write(b)
-						w.WriteByte('\n')
-						d.steps++
+						logged(o)
 					}
 				}
 			}
@@ -658,6 +674,69 @@ func cmdDrive(args []string) int {
 	return 0
 }
 
+// cmdRedrive re-executes the operations of a recorded trace on the current tree and writes a fresh trace.
+func cmdRedrive(args []string) int {
+	fs := flag.NewFlagSet("redrive", flag.ExitOnError)
+	in := fs.String("in", "", "recorded ndjson trace")
+	outTrace := fs.String("trace", "", "new ndjson trace")
+	fs.Parse(args)
+	fi, err := os.Open(*in)
+	if err != nil {
+		fmt.Fprintln(os.Stderr, err)
+		return 2
+	}
+	defer fi.Close()
+	fo, err := os.Create(*outTrace)
+	if err != nil {
+		fmt.Fprintln(os.Stderr, err)
+		return 2
+	}
+	w := bufio.NewWriterSize(fo, 1<<20)
+	var d *driver
+	sc := bufio.NewScanner(fi)
+	sc.Buffer(make([]byte, 1<<20), 1<<28)
+	n := 0
+	for sc.Scan() {
+		var rec struct {
+			T       string   `json:"t"`
+			O       model.Op `json:"o"`
+			NKeys   int      `json:"nkeys"`
+			Derived int      `json:"derived"`
+			CSeed   int64    `json:"cseed"`
+		}
+		if len(sc.Bytes()) == 0 {
+			continue
+		}
+		if err := json.Unmarshal(sc.Bytes(), &rec); err != nil {
+			fmt.Fprintln(os.Stderr, "redrive: bad line:", err)
+			return 2
+		}
+		if rec.T == "reset" {
+			if rec.NKeys == 0 {
+				rec.NKeys = 4
+			}
+			d = &driver{rng: rand.New(rand.NewSource(1)), real: heapx.New(conc.NewTF(rec.CSeed, rec.NKeys), nil, rec.NKeys, rec.Derived), nkeys: rec.NKeys, next: 1, maxList: 1 << 30, w: w}
+			fmt.Fprintf(w, "{\"t\":\"reset\",\"nkeys\":%d,\"derived\":%d,\"cseed\":%d}\n", rec.NKeys, rec.Derived, rec.CSeed)
+			continue
+		}
+		if d == nil || !d.real.Executable(rec.O) {
+			fmt.Fprintln(os.Stderr, "redrive: operation refers to an unknown container:", rec.O.String())
+			return 2
+		}
+		panicked, ret, _ := d.real.Exec(rec.O)
+		rv := d.assign(rec.O, panicked, ret)
+		prev := d.cur
+		d.cur = d.project()
+		d.logStep(rec.O, panicked, rv, prev)
+		n++
+	}
+	w.Flush()
+	fo.Close()
+	fmt.Printf("redrive: %d operations re-executed\n", n)
+	return 0
+}
+
 func init() {
 	extraCmds["drive"] = cmdDrive
+	extraCmds["redrive"] = cmdRedrive
 }
